@@ -230,7 +230,12 @@ def run_impl(cases):
             signal.signal(signal.SIGALRM, _on_alarm)
             signal.alarm(CEILING_S)
             try:
-                for rel, txt in tygen.definition_files(t).items():
+                files = tygen.definition_files(t)
+                # the analytic in-language attribute `_extent_` of every composite is queried from another definition
+                # (`_offset_` / `_bit_length_` are excluded: they expand numerically by design)
+                probe = ["@assert %s._extent_ >= 0" % rel[:-5].replace("/", ".") for rel in sorted(files)]
+                files["ns/ZzProbe.1.0.dsdl"] = "\n".join(probe + ["@sealed"]) + "\n"
+                for rel, txt in files.items():
                     p = d / rel
                     p.parent.mkdir(parents=True, exist_ok=True)
                     p.write_text(txt)
